@@ -132,9 +132,15 @@ class CacheRig:
                                 viol.append(("not-lru", "step %d %s: evicted an entry used at step %d but kept one last used at step %d" % (
                                     step, op, def_use.get(e, -1), poss_use.get(r, -1))))
                     if evicted and fits:
-                        mru = max(evicted, key=lambda k: poss_use.get(k, -1))
-                        if cache.memory_usage + before[mru][0] <= self.budget:
-                            viol.append(("over-eviction", "step %d %s: evicted %d entries although the most recently used of them (%d bytes) would still fit (usage %d, budget %.0f)" % (
+                        # victims go in least-recently-used order until the new entry fits, so the LAST victim would not fit
+                        # back; which victim was last is not always known here (a memento look-up may or may not count as a
+                        # use), so the eviction is called excessive only if EVERY victim would fit back: take the largest
+                        mru = max(evicted, key=lambda k: before[k][0])
+                        # (a put that replaces a resident entry may make room as if the old value were still there: the
+                        # property asks for least-recently-used victims, not for the smallest possible number of them)
+                        replaced = before[ck][0] if ck in before else 0
+                        if cache.memory_usage + before[mru][0] + replaced <= self.budget:
+                            viol.append(("over-eviction", "step %d %s: evicted %d entries although any one of them (the largest has %d bytes) would still fit (usage %d, budget %.0f)" % (
                                 step, op, len(evicted), before[mru][0], cache.memory_usage, self.budget)))
                 elif name == "read":
                     i = op[1]
